@@ -71,6 +71,19 @@ Theorem c21_final_state_graceful : forall i0 c0 ts sched n pc ac ag,
 Proof. exact final_state_graceful_reach. Qed.
 Print Assumptions c21_final_state_graceful.
 
+(* In ANY reachable state (other callers may still be inside close): a
+   GracefulClose caller that has returned has waited for everything -- the
+   teardown and the graceful-only steps ran exactly once, both done-channels
+   are closed, signaling and connection state are closed. *)
+Theorem c21_graceful_waits : forall i0 c0 ts sched n ac ag,
+  c0 <> PcClosed ->
+  let s := reach i0 c0 ts sched in
+  nth_error (threads s) n = Some (Closer true CDone ac ag) ->
+  closeDone s = true /\ gracefulDone s = true /\ teardowns s = 1 /\ gracefulOps s = 1 /\
+  sigClosed s = true /\ connState s = PcClosed.
+Proof. exact graceful_waits_reach. Qed.
+Print Assumptions c21_graceful_waits.
+
 (* The handler is never handed a non-closed state after closed (dispatch
    order), in every reachable state.  This is the theorem of the repaired
    updateConnectionState (fix commit: compute, compare and store under
